@@ -6,7 +6,7 @@ from .common import Exc
 from .oracle_env import env_for
 from .url_grammar import gen_url, gen_host, call, wrap_redirect, wrap_junk
 
-THEOREMS = ['C07_get_normalized_hostname', 'C07_get_fingerprinted_hostname', 'C07_surrounding_junk_irrelevant'] + ["(main statement: harness deciders on the implementation + model correspondence — partial)"]
+THEOREMS = ['C07_get_normalized_hostname', 'C07_get_fingerprinted_hostname', 'C07_surrounding_junk_irrelevant', 'C07_canonicalized_stems', 'C07_fingerprinted_stems'] + ["(main statement: harness deciders on the implementation + model correspondence — partial)"]
 
 
 def run(res, tier, rng):
